@@ -440,3 +440,96 @@ Proof.
       * pose proof (star_pairwise_pos votes [a; b] Hw (b, a) m) as Hp. fold pv in Hp. rewrite E in Hp. specialize (Hp (or_introl eq_refl)).
         unfold pget0 in H2. cbn [pget] in H2. rewrite peqb_refl' in H2. lia.
 Qed.
+
+(* ================================================================ the short class, in words *)
+(* being scored level (or both unscored) on one ballot is transitive *)
+Lemma indiff_trans b x y z :
+  prefers b x y = false -> prefers b y x = false -> prefers b y z = false -> prefers b z y = false ->
+  prefers b x z = false /\ prefers b z x = false.
+Proof.
+  unfold prefers. destruct (dget b x) as [vx|] eqn:Ex, (dget b y) as [vy|] eqn:Ey, (dget b z) as [vz|] eqn:Ez;
+    intros H1 H2 H3 H4; try discriminate;
+    repeat match goal with
+           | H : negb (Qle_bool _ _) = false |- _ => apply negb_false_iff, Qle_bool_iff in H
+           | H : negb (ceqb _ _) = false |- _ => apply negb_false_iff, ceqb_eq in H
+           end; subst; try (rewrite Ex in *); try (rewrite Ey in *); try discriminate.
+  - split; apply negb_false_iff, Qle_bool_iff; eapply Qle_trans; eassumption.
+  - split; reflexivity.
+Qed.
+
+Lemma separated_false votes members y : separated votes members y = false ->
+  forall m bw, In m members -> In bw votes -> prefers (fst bw) y m = false /\ prefers (fst bw) m y = false.
+Proof.
+  unfold separated, sep_pair. intros H m bw Hm Hbw.
+  assert (H1 : existsb (fun bw0 : sballot * Z => prefers (fst bw0) y m || prefers (fst bw0) m y) votes = false).
+  { destruct (existsb (fun bw0 : sballot * Z => prefers (fst bw0) y m || prefers (fst bw0) m y) votes) eqn:E; [|reflexivity].
+    assert (Ht : existsb (fun y0 => existsb (fun bw0 : sballot * Z => prefers (fst bw0) y y0 || prefers (fst bw0) y0 y) votes) members = true)
+      by (apply existsb_exists; exists m; split; assumption). congruence. }
+  assert (H2 : prefers (fst bw) y m || prefers (fst bw) m y = false).
+  { destruct (prefers (fst bw) y m || prefers (fst bw) m y) eqn:E; [|reflexivity].
+    assert (Ht : existsb (fun bw0 : sballot * Z => prefers (fst bw0) y m || prefers (fst bw0) m y) votes = true)
+      by (apply existsb_exists; exists bw; split; assumption). congruence. }
+  apply orb_false_iff in H2. exact H2.
+Qed.
+
+Lemma filter_all_true {X} (f : X -> bool) l : (forall x, In x l -> f x = true) -> filter f l = l.
+Proof.
+  induction l as [|x l IH]; intros H; [reflexivity|]. cbn [filter]. rewrite (H x (or_introl eq_refl)), IH; [reflexivity|].
+  intros y Hy. apply H. right. exact Hy.
+Qed.
+
+Lemma filter_none {X} (f : X -> bool) l : (forall x, In x l -> f x = false) -> filter f l = [].
+Proof.
+  induction l as [|x l IH]; intros H; [reflexivity|]. cbn [filter]. rewrite (H x (or_introl eq_refl)). apply IH.
+  intros y Hy. apply H. right. exact Hy.
+Qed.
+
+Lemma filter_len_le {X} (f : X -> bool) l : (length (filter f l) <= length l)%nat.
+Proof. induction l as [|x l IH]; [apply le_n|]. cbn [filter]. destruct (f x); cbn [length]; lia. Qed.
+
+(* one separated member separates them all *)
+Lemma separated_all votes members x y : In x members -> In y members ->
+  separated votes members x = true -> separated votes members y = true.
+Proof.
+  intros Hx Hy Hs. destruct (separated votes members y) eqn:E; [reflexivity|exfalso].
+  unfold separated, sep_pair in Hs. apply existsb_exists in Hs. destruct Hs as (z & Hz & Hs).
+  apply existsb_exists in Hs. destruct Hs as (bw & Hbw & Hp).
+  destruct (separated_false votes members y E x bw Hx Hbw) as (A1 & A2).
+  destruct (separated_false votes members y E z bw Hz Hbw) as (B1 & B2).
+  destruct (indiff_trans (fst bw) x y z A2 A1 B1 B2) as (C1 & C2). rewrite C1, C2 in Hp. discriminate.
+Qed.
+
+Theorem star_contest_all_or_none votes agg n :
+  star_contest votes agg n = star_finalists agg n \/
+  (star_contest votes agg n = [] /\
+   forall x y bw, In x (star_finalists agg n) -> In y (star_finalists agg n) -> In bw votes -> prefers (fst bw) x y = false).
+Proof.
+  unfold star_contest. set (fin := star_finalists agg n).
+  destruct (existsb (separated votes fin) fin) eqn:E.
+  - left. apply existsb_exists in E. destruct E as (x & Hx & Hs). apply filter_all_true.
+    intros y Hy. exact (separated_all votes fin x y Hx Hy Hs).
+  - right. assert (Hnone : forall x, In x fin -> separated votes fin x = false).
+    { intros x Hx. destruct (separated votes fin x) eqn:Es; [|reflexivity].
+      assert (Ht : existsb (separated votes fin) fin = true) by (apply existsb_exists; exists x; split; assumption). congruence. }
+    split.
+    + apply filter_none. exact Hnone.
+    + intros x y bw Hx Hy Hbw. exact (proj1 (separated_false votes fin x (Hnone x Hx) y bw Hy Hbw)).
+Qed.
+
+(* the short class in words: the finalist cut leaves fewer than n plain run-off members, or no ballot orders any two of them *)
+Theorem star_short_iff votes agg n : (1 <= n)%nat ->
+  (star_shortb votes agg n = true <->
+   (length (star_finalists agg n) < n)%nat \/
+   (forall x y bw, In x (star_finalists agg n) -> In y (star_finalists agg n) -> In bw votes -> prefers (fst bw) x y = false)).
+Proof.
+  intros Hn. unfold star_shortb. rewrite Nat.ltb_lt. split.
+  - intros Hlt. destruct (star_contest_all_or_none votes agg n) as [E|(E & Hno)]; [left; rewrite <- E; exact Hlt|right; exact Hno].
+  - intros [Hlt|Hno].
+    + unfold star_contest. eapply Nat.le_lt_trans; [apply filter_len_le|exact Hlt].
+    + assert (E : star_contest votes agg n = []).
+      { unfold star_contest. apply filter_none. intros u Hu.
+        destruct (separated votes (star_finalists agg n) u) eqn:Es; [|reflexivity]. exfalso. unfold separated, sep_pair in Es.
+        apply existsb_exists in Es. destruct Es as (z & Hz & Es). apply existsb_exists in Es. destruct Es as (bw & Hbw & Hp).
+        rewrite (Hno u z bw Hu Hz Hbw), (Hno z u bw Hz Hu Hbw) in Hp. discriminate. }
+      rewrite E. cbn [length]. lia.
+Qed.
